@@ -12,12 +12,15 @@ theorem sPost_eq (dst p8 p4 p2 p1 pe : Nat) : sPostCode dst p8 p4 p2 p1 pe =
   simp [sPostCode, lenBlkCode, tagOutCode, List.append_assoc]
 
 /-- a family of memories that differ in the destination buffer and in the scratch buffer -/
-structure Mem2 (M2 : List Nat → List Nat → List Region) (dbase dlen tp : Nat) : Prop where
-  bufT : ∀ dc, dc.length = dlen → Buf (fun t => M2 dc t) tp 32
-  bufD : ∀ tc, tc.length = 32 → Buf (fun d => M2 d tc) dbase dlen
-  rdT : ∀ dc tc, dc.length = dlen → tc.length = 32 → DataAt (M2 dc tc) tp tc
+structure Mem2L (M2 : List Nat → List Nat → List Region) (dbase dlen tp tl : Nat) : Prop where
+  bufT : ∀ dc, dc.length = dlen → Buf (fun t => M2 dc t) tp tl
+  bufD : ∀ tc, tc.length = tl → Buf (fun d => M2 d tc) dbase dlen
+  rdT : ∀ dc tc, dc.length = dlen → tc.length = tl → DataAt (M2 dc tc) tp tc
   sh1 : ∀ dc tc, readMem (M2 dc tc) 64424509440 16 = .ok Gen.AsmData.amd64_Shuffle1
   sh2 : ∀ dc tc, readMem (M2 dc tc) 68719476736 16 = .ok Gen.AsmData.amd64_Shuffle2
+
+/-- the family with the 32-byte scratch buffer of the Go wrappers -/
+abbrev Mem2 (M2 : List Nat → List Nat → List Region) (dbase dlen tp : Nat) : Prop := Mem2L M2 dbase dlen tp 32
 
 theorem kLenBlk : writesNone lenBlkCode ((List.range 16).filter (fun n => !([7, 9, 12, 1].contains n)))
     ((List.range 32).filter (fun n => !([0, 1, 2, 3, 20].contains n))) [0, 2, 3, 4, 5, 6, 7] = true := by decide +kernel
@@ -53,15 +56,15 @@ set_option maxHeartbeats 2000000 in
 theorem sPost_reach (r : Routine) (k dst p8 p4 p2 p1 pe : Nat) (hdst : dst = 13 ∨ dst = 0)
     (hs : Slice r k (sPostCode dst p8 p4 p2 p1 pe)) (l8 : findPc r p8 = some (r.drop (k + 47))) (l4 : findPc r p4 = some (r.drop (k + 55)))
     (l2 : findPc r p2 = some (r.drop (k + 63))) (l1 : findPc r p1 = some (r.drop (k + 71))) (le : findPc r pe = some (r.drop (k + 79)))
-    (M2 : List Nat → List Nat → List Region) (dbase dlen tp : Nat) (m2 : Mem2 M2 dbase dlen tp)
-    (hdb : dbase + dlen < 2 ^ 63) (htp : tp + 32 < 2 ^ 63)
-    (s : State) (h : Nat) (gc : GhCtx h s) (hsy : s.syms = symTab) (dc tc : List Nat) (hdc : dc.length = dlen) (htc : tc.length = 32)
+    (M2 : List Nat → List Nat → List Region) (dbase dlen tp tl : Nat) (htl : 16 ≤ tl) (m2 : Mem2L M2 dbase dlen tp tl)
+    (hdb : dbase + dlen < 2 ^ 63) (htp : tp + tl < 2 ^ 63)
+    (s : State) (h : Nat) (gc : GhCtx h s) (hsy : s.syms = symTab) (dc tc : List Nat) (hdc : dc.length = dlen) (htc : tc.length = tl)
     (hm : s.mem = M2 dc tc) (a c ts doff y tmask : Nat) (h7 : greg s 7 = a) (h9 : greg s 9 = c) (ha : a < 2 ^ 61) (hc : c < 2 ^ 61)
     (hgd : greg s dst = dbase + doff) (h14 : greg s 14 = ts) (hts : ts ≤ 16) (hdo : doff + ts ≤ dlen) (h6 : greg s 6 = tp)
     (hy : vreg s 21 = y) (hylt : y < 2 ^ 128) (h15 : vreg s 15 = tmask) (htm : tmask < 2 ^ 128) :
     ∃ s' N tc', N ≤ 120 ∧ Reach r k s (k + 80) s' N ∧
-      s'.mem = M2 (spliceAt dc doff ((lanes 8 16 (tagN h y tmask a c)).take ts)) tc' ∧ tc'.length = 32 ∧
-      KeepsM (sPostKeepG dst) sPostKeepV [] s s' := by
+      s'.mem = M2 (spliceAt dc doff ((lanes 8 16 (tagN h y tmask a c)).take ts)) tc' ∧ tc'.length = tl ∧
+      KeepsM (sPostKeepG dst) sPostKeepV [] s s' ∧ vreg s' 21 < 2 ^ 128 := by
   rw [sPost_eq] at hs
   have sA := hs.left
   have sB : Slice r (k + 12) (rbCode 16 20 0 1) := hs.right.left
@@ -141,15 +144,15 @@ theorem sPost_reach (r : Routine) (k dst p8 p4 p2 p1 pe : Nat) (hdst : dst = 13 
     rw [show greg s7 6 = tp from g66, ea00 _ (by omega), vreg_setVreg_eq s6 21 T (by rw [c6.lenV]; decide)]
     show writeMem s6.mem _ _ = _
     rw [m6]
-    have := (m2.bufT dc hdc).wr tc 0 (lanes 8 16 T) htc (by simp [lanes_length])
+    have := (m2.bufT dc hdc).wr tc 0 (lanes 8 16 T) htc (by simp [lanes_length]; omega)
     rw [Nat.add_zero] at this
     exact this
   have hx78 : execList tagOutCode s6 = .ok s8 := by
     apply exec_step x7; apply exec_step x8; exact execList_nil _
   have r7 : Reach r (k + 45) s6 (k + 47) s8 2 := reach_seg sG (by rfl) hx78
-  have htc1 : tc1.length = 32 := by
-    show (spliceAt tc 0 (lanes 8 16 T)).length = 32
-    rw [spliceAt_length _ _ _ (by simp [lanes_length, htc])]; exact htc
+  have htc1 : tc1.length = tl := by
+    show (spliceAt tc 0 (lanes 8 16 T)).length = tl
+    rw [spliceAt_length _ _ _ (by simp [lanes_length, htc]; omega)]; exact htc
   -- copy the tag
   have cr : CopyRegs dst 6 14 12 := by
     rcases hdst with rfl | rfl <;> exact ⟨by decide, by decide, by decide, by decide, by decide, by decide, by decide, by decide, by decide, by decide⟩
@@ -176,7 +179,12 @@ theorem sPost_reach (r : Routine) (k dst p8 p4 p2 p1 pe : Nat) (hdst : dst = 13 
     hdb (by simp [lanes_length]; omega) ts s8 dc 0 doff hG8 hdc rfl g814 (by omega) (by show greg s6 6 = tp + 0; exact g66) g8d
     (by simp [lanes_length]; omega) hdo
   refine ⟨s9, 12 + 6 + 1 + 19 + 1 + 6 + 2 + N9, tc1, by omega,
-    (((((((r1.trans r2).trans r3).trans r4).trans r5).trans r6).trans r7).trans (r9.cast (by omega) rfl)).cast rfl rfl, ?_, htc1, ?_⟩
+    (((((((r1.trans r2).trans r3).trans r4).trans r5).trans r6).trans r7).trans (r9.cast (by omega) rfl)).cast rfl rfl, ?_, htc1, ?_, ?_⟩
+  rotate_right
+  · rw [vreg_of_vec k9.vec 21]
+    show vreg (setVreg s6 21 T) 21 < _
+    rw [vreg_setVreg_eq s6 21 T (by rw [c6.lenV]; decide)]
+    exact Nat.xor_lt_two_pow (rb128_lt _) htm
   · rw [m9, List.drop_zero]
   · have e78 : KeepsM (sPostKeepG dst) sPostKeepV [] s6 s8 :=
       ⟨rfl, by simp [s8, s7], rfl, fun _ _ => rfl,
